@@ -2,6 +2,7 @@ import GapicModel.Model.Emit
 import GapicModel.Model.NamingOptions
 import GapicModel.Model.Layout
 import GapicModel.Lemmas.RegexCaps
+import GapicModel.Lemmas.ValidFilename
 /-
 C11 — the emitted file set is well-formed and placed by package-derived naming.
 Theorems about the segment-wise model of `_get_filename` / `_render_template`, instantiated on the
@@ -957,5 +958,65 @@ example :
     (responseNames o (shapeOf nm ps) templatesDefault).all (fun f => f.getLast? ≠ some "_base.py".toList) = true := by decide +kernel
 
 end Nested
+
+section ValidNames
+open GapicModel.Lemmas.ValidFilename
+
+/-- **`to_valid_filename`, for every text**: the result consists of `a-z 0-9 . $ _ -` only (proved over the regex engine
+running the pinned pattern `[^a-z0-9.$_-]+` on the translation of `gapic/utils/filename.py`) -/
+theorem valid_filename_charset (s : Str) : ∀ c ∈ Pinned.Funcs.to_valid_filename s, Allowed c :=
+  to_valid_filename_chars s
+
+/-- **`to_valid_module_name`, for every text**: the result consists of `a-z 0-9 . $ _` only; in particular it holds no
+`/`, no `-`, no blank and no upper-case letter, whatever the option or package text was -/
+theorem valid_module_name_charset (s : Str) : ∀ c ∈ Pinned.Funcs.to_valid_module_name s, Allowed c ∧ c ≠ '-' :=
+  to_valid_module_name_chars s
+
+/-- a module name never spans two path segments -/
+theorem valid_module_name_no_slash (s : Str) : '/' ∉ Pinned.Funcs.to_valid_module_name s :=
+  fun h => allowed_ne_slash (to_valid_module_name_chars s _ h).1 rfl
+
+/-- every directory of `Naming.module_namespace` (the translated property) is one path segment — for every namespace,
+inferred or overridden -/
+theorem module_namespace_no_slash (segs : List Str) : ∀ s ∈ Pinned.Funcs.naming_module_namespace segs, '/' ∉ s := by
+  intro s hs
+  unfold Pinned.Funcs.naming_module_namespace at hs
+  obtain ⟨x, _, rfl⟩ := List.mem_map.mp hs
+  exact valid_module_name_no_slash x
+
+/-- `to_valid_module_name` is idempotent: naming a module twice changes nothing -/
+theorem valid_module_name_idempotent (s : Str) :
+    Pinned.Funcs.to_valid_module_name (Pinned.Funcs.to_valid_module_name s) = Pinned.Funcs.to_valid_module_name s :=
+  to_valid_module_name_idem s
+
+/-- the fixed-point hypothesis of `namespace_dirs_are_module_namespace` / `packageDir_is_translated`, discharged by a
+decidable character condition: **a namespace whose segments are made of `a-z 0-9 . $ _` has directory path = import
+path** (`i.lower()` joined by `_get_filename` vs `to_valid_module_name(i)` joined by the emitted imports) -/
+theorem namespace_dirs_are_module_namespace_of_charset (segs : List Str)
+    (h : ∀ s ∈ segs, ∀ c ∈ s, Allowed c ∧ c ≠ '-') : Pinned.Funcs.naming_module_namespace segs = segs :=
+  namespace_dirs_are_module_namespace segs (fun s hs => to_valid_module_name_fixed s (h s hs))
+
+/-- and the condition is necessary segment by segment: a segment with any other character is NOT a fixed point
+(the directory `_get_filename` makes and the module the imports name then differ — e.g. a namespace override
+`Foo-Bar`, whose directory is `foo-bar` and whose import is `foo_bar`) -/
+theorem namespace_dir_differs_outside_charset (s : Str) (c : Char) (hc : c ∈ s) (h : ¬ (Allowed c ∧ c ≠ '-')) :
+    Pinned.Funcs.to_valid_module_name s ≠ s := by
+  intro e
+  rw [← e] at hc
+  exact h (to_valid_module_name_chars s c hc)
+
+/-- non-vacuity and sharpness: ordinary segments satisfy the condition; `-` and `..` show what the charset theorem
+does not exclude (a segment can still be `.`/`..`: that is excluded by protoc's identifier grammar, `CleanCtx`) -/
+example : (∀ c ∈ "google_cloud1".toList, Allowed c ∧ c ≠ '-') ∧
+    Pinned.Funcs.to_valid_module_name "Foo-Bar Baz/Q".toList = "foo_bar_baz_q".toList ∧
+    Pinned.Funcs.to_valid_module_name "..".toList = "..".toList := by
+  refine ⟨?_, by decide +kernel, by decide +kernel⟩
+  intro c hc
+  simp only [String.toList] at hc
+  rw [← bad_false_iff]
+  revert c
+  decide +kernel
+
+end ValidNames
 
 end GapicModel.Props.C11
